@@ -4,7 +4,7 @@
    deriv2/3, sderivs are the executable model (Model/FiniteDiff.v) that the correspondence runs against the code. *)
 From Coq Require Import ZArith QArith Qcanon List Permutation Lia.
 From DV Require Import Base.Field Base.LinAlg Base.QcInst Model.BSplineBase Gen.BSpline Model.BSpline
-  Gen.FlowDeriv Model.FiniteDiff Proofs.C12FD Proofs.C12ND Proofs.C12ND3 Proofs.C12Flow Proofs.C12Keys.
+  Gen.FlowDeriv Model.FiniteDiff Proofs.C12FD Proofs.C12ND Proofs.C12ND3 Proofs.C12Flow Proofs.C12Vec Proofs.C12Keys.
 Import ListNotations.
 Local Open Scope fld_scope.
 
@@ -130,6 +130,73 @@ Theorem C12_lie_bracket :
                 [[ju00; ju01; ju02]; [ju10; ju11; ju12]; [ju20; ju21; ju22]] [v0; v1; v2] [u0; u1; u2]).
 Proof. intros K Kf. split; [exact (lie2_formula K Kf)|exact (lie3_formula K Kf)]. Qed.
 Print Assumptions C12_lie_bracket.
+
+(* 5b. ... and on affine vector fields u(p) = A p + t (v(p) = B p + s) sampled on a grid they take their analytic values
+       at every grid point whose coordinates are supported along every axis (reg1 = exact1 and smooth_ok: all points for
+       forward_central_backward, all but the padded end(s) for forward / backward / central, interior for the cross-
+       smoothing of prewitt / sobel): Jacobian = A, det = det A, det with identity = det (A + I), divergence = trace A,
+       curl = rotation vector of A, [v, u] = B u(p) - A v(p); all shapes, spacings <> 0, D = 2 and D = 3 *)
+Theorem C12_flow_operators_affine_2d :
+  forall (K : fld), is_field K -> char0 K ->
+  forall (m : fdmode) (a00 a01 a10 a11 t0 t1 hx hy : K) (nx ny x y : nat),
+  hx <> 0 -> hy <> 0 -> reg1 m nx x -> reg1 m ny y ->
+  let A := mat2 a00 a01 a10 a11 in
+  let u := affvec2 A [t0; t1] hx hy nx ny in
+  jac2_at (jacT2 m [hx; hy] u) y x = A /\
+  nth x (nth y (det2_field m [hx; hy] false u ny nx) []) 0 = det2 A /\
+  nth x (nth y (det2_field m [hx; hy] true u ny nx) []) 0 = det2 (plus_id 2 A) /\
+  nth x (nth y (div2_field m [hx; hy] u ny nx) []) 0 = trace_spec 2 A /\
+  nth x (nth y (curl2_field m [hx; hy] u ny nx) []) [] = curl2_spec A.
+Proof.
+  intros K Kf Kc m a00 a01 a10 a11 t0 t1 hx hy nx ny x y Hx Hy Rx Ry A u. split;
+  [exact (jac2_affine K Kf Kc m a00 a01 a10 a11 t0 t1 hx hy nx ny x y Hx Hy Rx Ry)
+  |exact (det_div_curl_2d K Kf Kc m a00 a01 a10 a11 t0 t1 hx hy nx ny x y Hx Hy Rx Ry)].
+Qed.
+Print Assumptions C12_flow_operators_affine_2d.
+
+Theorem C12_lie_bracket_affine_2d :
+  forall (K : fld), is_field K -> char0 K ->
+  forall (m : fdmode) (a00 a01 a10 a11 s0 s1 b00 b01 b10 b11 t0 t1 hx hy : K) (nx ny x y : nat),
+  hx <> 0 -> hy <> 0 -> reg1 m nx x -> reg1 m ny y ->
+  let A := mat2 a00 a01 a10 a11 in let B := mat2 b00 b01 b10 b11 in
+  let u := affvec2 A [s0; s1] hx hy nx ny in let v := affvec2 B [t0; t1] hx hy nx ny in
+  nth x (nth y (lie2_field m [hx; hy] v u ny nx) []) [] = lie_spec B A (vec2_at v y x) (vec2_at u y x) /\
+  vec2_at u y x = [s0 + a00 * (zn x * hx) + a01 * (zn y * hy); s1 + a10 * (zn x * hx) + a11 * (zn y * hy)].
+Proof.
+  intros K Kf Kc m a00 a01 a10 a11 s0 s1 b00 b01 b10 b11 t0 t1 hx hy nx ny x y Hx Hy Rx Ry A B u v. split;
+  [exact (lie_2d K Kf Kc m a00 a01 a10 a11 s0 s1 b00 b01 b10 b11 t0 t1 hx hy nx ny x y Hx Hy Rx Ry)
+  |exact (vec2_affine K Kf m a00 a01 a10 a11 s0 s1 hx hy nx ny x y Rx Ry)].
+Qed.
+Print Assumptions C12_lie_bracket_affine_2d.
+
+Theorem C12_flow_operators_affine_3d :
+  forall (K : fld), is_field K -> char0 K ->
+  forall (m : fdmode) (a00 a01 a02 a10 a11 a12 a20 a21 a22 t0 t1 t2 hx hy hz : K) (nx ny nz x y z : nat),
+  hx <> 0 -> hy <> 0 -> hz <> 0 -> reg1 m nx x -> reg1 m ny y -> reg1 m nz z ->
+  let A := mat3 a00 a01 a02 a10 a11 a12 a20 a21 a22 in
+  let u := affvec3 A [t0; t1; t2] hx hy hz nx ny nz in
+  jac3_at (jacT3 m [hx; hy; hz] u) z y x = A /\
+  nth x (nth y (nth z (det3_field m [hx; hy; hz] false u nz ny nx) []) []) 0 = det3 A /\
+  nth x (nth y (nth z (det3_field m [hx; hy; hz] true u nz ny nx) []) []) 0 = det3 (plus_id 3 A) /\
+  nth x (nth y (nth z (div3_field m [hx; hy; hz] u nz ny nx) []) []) 0 = trace_spec 3 A /\
+  nth x (nth y (nth z (curl3_field m [hx; hy; hz] u nz ny nx) []) []) [] = curl3_spec A.
+Proof.
+  intros K Kf Kc m a00 a01 a02 a10 a11 a12 a20 a21 a22 t0 t1 t2 hx hy hz nx ny nz x y z Hx Hy Hz Rx Ry Rz A u. split;
+  [exact (jac3_affine K Kf Kc m a00 a01 a02 a10 a11 a12 a20 a21 a22 t0 t1 t2 hx hy hz nx ny nz x y z Hx Hy Hz Rx Ry Rz)
+  |exact (det_div_curl_3d K Kf Kc m a00 a01 a02 a10 a11 a12 a20 a21 a22 t0 t1 t2 hx hy hz nx ny nz x y z Hx Hy Hz Rx Ry Rz)].
+Qed.
+Print Assumptions C12_flow_operators_affine_3d.
+
+Theorem C12_lie_bracket_affine_3d :
+  forall (K : fld), is_field K -> char0 K ->
+  forall (m : fdmode) (a00 a01 a02 a10 a11 a12 a20 a21 a22 s0 s1 s2 b00 b01 b02 b10 b11 b12 b20 b21 b22 t0 t1 t2 hx hy hz : K)
+         (nx ny nz x y z : nat),
+  hx <> 0 -> hy <> 0 -> hz <> 0 -> reg1 m nx x -> reg1 m ny y -> reg1 m nz z ->
+  let A := mat3 a00 a01 a02 a10 a11 a12 a20 a21 a22 in let B := mat3 b00 b01 b02 b10 b11 b12 b20 b21 b22 in
+  let u := affvec3 A [s0; s1; s2] hx hy hz nx ny nz in let v := affvec3 B [t0; t1; t2] hx hy hz nx ny nz in
+  nth x (nth y (nth z (lie3_field m [hx; hy; hz] v u nz ny nx) []) []) [] = lie_spec B A (vec3_at v z y x) (vec3_at u z y x).
+Proof. exact lie_3d. Qed.
+Print Assumptions C12_lie_bracket_affine_3d.
 
 (* 6. keys: for an arbitrary list of requested keys (any lengths, repetitions, unsorted mixed keys) every requested key
       gets the derivative along its sorted letters -- a function of the key alone -- so a subset returns the same values
